@@ -131,6 +131,9 @@ def make_calls(rng, ps):
         c["kwargs"][opt[0]] = ["none"]
         c["welltyped"] = False
         calls.append(c)
+    # non-binding: a keyword-only parameter given positionally (one positional argument too many)
+    if any(p[1] == "ko" for p in ps) and not any(p[1] == "vp" for p in ps):
+        calls.append({"args": [val(p) for p in ps if p[1] in ("po", "pk", "ko")], "kwargs": {}, "welltyped": True, "binds": False})
     # non-binding
     calls.append({"args": [], "kwargs": {"no_such_parameter_": ["int", 1]}, "welltyped": True, "binds": any(p[1] == "vk" for p in ps) and not any(not p[2] and p[1] in ("po", "pk", "ko") for p in ps)})
     return calls
@@ -253,6 +256,14 @@ def main():
                                 {"case": c, "call": call, "observed": o, "source": r["src"]}, key=dict(keyb, kind="illtyped-runs"))
         if len(samples) < 3 and len(c["params"]) >= 4:
             samples.append({"source": r["src"], "calls": [[x["plain"], x["wrapped"], x["body_runs"]] for x in r["calls"]]})
+    # small programs of well-typed calls, decorated vs plain
+    scen = vf.impl("impl_wrap.py", {"scenarios": [[n, c] for n in ("loader", "helper_binds") for c in ("typeguard", "beartype")]}, timeout=600)
+    for sc in scen:
+        ncalls += len(sc["plain"])
+        R.count("scenario:" + sc["scenario"])
+        if sc["plain"] != sc["wrapped"]:
+            R.violation("property", "scenario %r (%s), every call well-typed: the plain program gives %s, the decorated one %s" % (sc["scenario"], sc["checker"], sc["plain"], sc["wrapped"]),
+                        {"scenario": sc}, key={"kind": "scenario", "scenario": sc["scenario"]})
     if not proved:
         R.violation("proof", "proof obligations of props/C07.v no longer check: " + str(R.broken_proof)[-800:],
                     {"theorem_file": "coq/props/C07.v", "log": R.broken_proof}, no_input=not any(v["kind"] == "property" for v in R.violations))
